@@ -82,6 +82,7 @@ type parser struct {
 	col    int
 	onDeck byte
 	eof    bool
+	nl     bool // the last byte read was a newline, the next byte starts a new line
 	depth  int // current nesting of lists, objects, list types, and selection sets
 }
 
@@ -143,10 +144,15 @@ func (p *parser) readByte() (b byte, err error) {
 		}
 		if n != 0 {
 			b = ba[0]
-			if b == '\n' {
+			// The line changes with the byte after a newline so that the
+			// position is still on the line of a token when the newline
+			// that ends the token has been read as the lookahead.
+			if p.nl {
+				p.nl = false
 				p.line++
-				p.col = 0
+				p.col = 1
 			}
+			p.nl = b == '\n'
 			p.col++
 			break
 		}
